@@ -35,8 +35,8 @@ CLAIMS = {
         note=TRUST + "NOT decided: that the two closed-form specifications (interleave / de-interleave) are mutually inverse - a mathematical fact about the specifications, stated as a lemma but not finished by the solvers for the larger zooms and therefore removed; the list-level round trip and the agreement with the zoom change across different output zooms (the pairs themselves are not characterised, only their distinctness: a change that drops pairs is not detected, seed C11-3). strconv.FormatInt(q, 4) followed by strings.Split(., \"\") is modelled as the base-4 digit sequence of q (trusted model).",
         tech="deductive verification: WP VCs over go/ssa, exhaustive zoom / digit-count / loop-index case split, opaque bit symbols with instantiated lemmas, SMT (linear integer arithmetic)", ref="4 C11"),
     "C02": dict(category="other",
-        text="PARTIAL, over ideal reals. Proved for every horizontal zoom 0..35 (and 36x36 zoom pairs at the top level): the vertex query returns eight points in the documented order NW, NE, SE, SW (bottom) then top, with longitudes 360*x/2^h-180 and 360*(x+1)/2^h-180, latitudes atan(sinh(pi*(1-2y/2^h))) and the same for y+1 (each cut toward zero at 1e-10 degrees by the point constructor), altitudes f*2^(25-v) and (f+1)*2^(25-v); the centre query returns the midpoint on every axis; a valid extended ID is parsed and dispatched to exactly these (option 0 = vertex, 1 = centre); as a lemma over these contracts the centre of a voxel is mapped back by the point lookup to the voxel's own column x and vertical layer f at the same zooms (two of the three components of the round-trip clause); unknown options, malformed IDs and zooms outside 0..35 are errors and nothing panics (C15 part, IEEE semantics).",
-        note=TRUST + "float64 arithmetic is treated as real arithmetic in the functional clauses (a change of a formula, an index, the corner order or the option dispatch is detected; rounding effects are not): NOT decided are the row component y of the round trip centre -> ID (needs atan(sinh) / asinh(tan) to be inverse and the 1e-10 cut to stay inside the row; x and f are proved over ideal reals) and the bit-exact coincidence of shared faces. atan, sinh are uninterpreted; that the edges of every grid row pass the constructor's latitude limit is a stated (trusted) precondition.",
+        text="PARTIAL, over ideal reals. Proved for every horizontal zoom 0..35 (and 36x36 zoom pairs at the top level): the vertex query returns eight points in the documented order NW, NE, SE, SW (bottom) then top, with longitudes 360*x/2^h-180 and 360*(x+1)/2^h-180, latitudes atan(sinh(pi*(1-2y/2^h))) and the same for y+1 (each cut toward zero at 1e-10 degrees by the point constructor), altitudes f*2^(25-v) and (f+1)*2^(25-v); the centre query returns the midpoint on every axis; a valid extended ID is parsed and dispatched to exactly these (option 0 = vertex, 1 = centre); as a lemma over these contracts the centre of a voxel is mapped back by the point lookup to the voxel's own column x and vertical layer f at the same zooms (two of the three components of the round-trip clause), and neighbouring voxels report the same longitude / cut latitude / altitude for the face they share (east, south and top neighbours, all zooms), i.e. the grid tiles space over ideal reals; unknown options, malformed IDs and zooms outside 0..35 are errors and nothing panics (C15 part, IEEE semantics).",
+        note=TRUST + "float64 arithmetic is treated as real arithmetic in the functional clauses (a change of a formula, an index, the corner order or the option dispatch is detected; rounding effects are not): NOT decided are the row component y of the round trip centre -> ID (needs atan(sinh) / asinh(tan) to be inverse and the 1e-10 cut to stay inside the row; x and f are proved over ideal reals) and the bit-exact coincidence of shared faces under float64 rounding (their coincidence over ideal reals is a proved lemma). atan, sinh are uninterpreted; that the edges of every grid row pass the constructor's latitude limit is a stated (trusted) precondition.",
         tech="deductive verification: WP VCs over go/ssa with float64 as ideal reals, uninterpreted transcendental functions, zoom case split, SMT", ref="4 C02"),
     "C17": dict(category="other",
         text="PARTIAL, over ideal reals. Proved for every output zoom 0..35: calcBitIndex returns the index of the cell of the 2^zoom-fold binary subdivision of [minHeight, maxHeight) that contains the altitude (loop invariant: the current interval is cell bitIndex of the 2^i-fold subdivision), 0 for altitudes below the range and 2^zoom-1 above it (clamped, never rejected), always within 0..2^zoom-1, and is monotone in the altitude (lemma); convertVerticallIDToBit returns exactly the top cell, the bottom cell and the cells in between in ascending order - a duplicate-free contiguous run from the cell of f*2^(25-v) to the cell of (f+1)*2^(25-v) - for every vertical zoom; maxHeight < minHeight and invalid zooms are errors in both list-level directions.",
